@@ -14,12 +14,19 @@ RULE = ('connected / strongly connected inputs n=4..9 with few redundant edges (
         'separate stream undirected) asymmetric D; randomize_graph_partial_und with symmetric masks and a separate asymmetric-mask '
         'stream; malformed stream (disconnected / asymmetric input to the undirected _connected routines). Every run is recorded '
         'and replayed by the extracted model (same engine as C01, including the connectivity tests); non-trivial = at least one '
-        'accepted swap or a rejection clause exercised; distinct by hash of the case')
+        'accepted swap or a rejection clause exercised; distinct by hash of the case. STRESS FAMILIES (oracle only, no model replay): the four `_connected` routines, itr = 1, on long sparse '
+        'networks of n = 160..260 nodes where about every second candidate swap would disconnect and the connectivity searches run for 50+ rounds - undirected ring, ring / chain / '
+        'deep tree + 2-4 chords; directed one-way cycle + n/8 or 3-5 chords, + skips i->i+2, + short back connections, two-way ring / deep tree + chords - with heavy (integers 1e4..1e6), '
+        'tiny (1e-6..1e-4), mixed or unit weights: connectivity (depth-first search) after EVERY accepted swap and of the output, degrees per node and the multiset of weights kept, finite / '
+        'symmetric output; two runs per routine in a quick run (one of them a ring / chain / cycle with heavy weights), every family x three weight kinds in the thorough tier = the '
+        'escalated pass on a changed tree (run FIRST there)')
 ASSUMES = ['integer or small dyadic weights and D (k/8, k/4): products and comparisons of the lattice condition are exact in binary64; '
            'the model is over Z and receives them multiplied by a power of two (the lattice condition is homogeneous in R and in D, '
            'the engine otherwise only moves weights and tests them against 0)',
            'the connectivity tests are modelled on the support (nonzero pattern); exact for every sign: P is nonzero only where PN is '
-           'zero (`P *= logical_not(PN)` precedes `PN += P`), nothing cancels; signed weights are generated for all routines']
+           'zero (`P *= logical_not(PN)` precedes `PN += P`), nothing cancels; signed weights are generated for all routines',
+           'the model tests the support, the code tests float values: they agree as long as the frontier arrays hold 0/1 or single weights (as the code does: np.any of the rows); '
+           'a search that multiplied weights along the way would leave binary64 on the stress families (n = 160..260, weights 1e4..1e6 / 1e-6..1e-4), which are judged by the oracle alone']
 TRUSTED = ['recording RandomState subclass and add-only hook lines (as for C01)']
 
 
@@ -168,8 +175,88 @@ def reject_case(ctx, fn, lines, pend):
     lines.append(precheck_line(fn, A)); pend.append(('precheck', case, not raised))
 
 
+def stress_rng(ctx, salt=1):
+    """a random state of its own for the stress families (derived from VERIF_SEED like ctx.nprng; the streams of the other
+    generators stay what they were)"""
+    return np.random.RandomState((ctx.seed * 7919 + int(ctx.pid[1:]) + 1000003 * salt + (500009 if ctx.escalated else 0)) % (2 ** 31))
+
+
+def stress_case(ctx, r, fn, n, fam, wkind, itr=1):
+    """one `_connected` run on a long sparse network (n = 160..260) with heavy / tiny / mixed weights; oracle only:
+    connectivity of the network after EVERY accepted swap and of the output (depth-first search), degrees per node and the
+    multiset of weights preserved, finite symmetric (undirected) output.  Runs on the arrays as built (the per-swap hook is
+    consumed while the routine runs; the representation / call-sequence layer is switched off for the call)."""
+    und = fn in UND
+    A, edges = stress_graph(r, und, n, fam, wkind)
+    seed = int(r.randint(1, 2 ** 31 - 1))
+    case = {'fn': fn, 'family': fam, 'weights': wkind, 'n': n, 'itr': itr, 'seed': seed, 'D': None, 'edges': edges,
+            'construction': 'A = zeros((n,n)); for i, j, w in edges: A[i,j] = w' + ('; A[j,i] = w' if und else '')}
+    chk = lambda M: connected_fast(M, und)
+    if not chk(A) or not two_disjoint_edges_sparse(edges):
+        ctx.errors.append('stress generator produced a network outside the domain: %r' % ({k: v for k, v in case.items() if k != 'edges'},))
+        return
+    st = {'t': 0, 'bad': None}
+
+    def on_swap(kw):
+        st['t'] += 1
+        if st['bad'] is None and not chk(kw['R']):
+            st['bad'] = (st['t'], [int(x) for x in kw['abcd']])
+    with no_variants(), np.errstate(all='ignore'):
+        res = run_impl_watch(fn, A, itr, seed, on_swap)
+    ctx.case(case, nontrivial=st['t'] > 0)
+    ctx.count('stress:%s:%s' % (fn, fam)); ctx.count('stress:weights:' + wkind); ctx.count('stress:accepted_swaps', st['t']); ctx.count('stress:n=%d' % n)
+    if res['error'] == 'timeout':
+        ctx.count('timeout'); return
+    if res['error']:
+        ctx.fail(fn + ':raises', 'raised on an input in the documented domain: ' + res['error'], case); return
+    if st['bad'] is not None:
+        ctx.fail(fn + ':connected-step', 'network disconnected after accepted swap %d (a, b, c, d = %s) of %d' % (st['bad'][0], st['bad'][1], st['t']), case)
+    out = np.asarray(res['out'], dtype=float)
+    ctx.check(chk(out), fn + ':connected', 'connected input, disconnected output (%d accepted swaps)' % st['t'], case)
+    ok = bool(np.isfinite(out).all()) and (not und or np.array_equal(out, out.T))
+    ok = ok and np.array_equal((out != 0).sum(axis=0), (A != 0).sum(axis=0)) and np.array_equal((out != 0).sum(axis=1), (A != 0).sum(axis=1))
+    ok = ok and np.array_equal(np.sort(out[out != 0]), np.sort(A[A != 0]))
+    ctx.check(ok, fn + ':degrees-and-weights-kept', 'the output is not a finite rewiring of the input: degrees per node / multiset of weights / symmetry changed', case)
+
+
+def two_disjoint_edges_sparse(edges):
+    """domain filter (two vertex-disjoint connections) on an edge list"""
+    for x, y, _ in edges[:8]:
+        for a, b, _ in edges:
+            if len({x, y, a, b}) == 4:
+                return True
+    return False
+
+
+def stress_families(ctx):
+    """quick: one run per `_connected` routine (n = 160..200); thorough (= the escalated pass on a changed tree, where this
+    block runs first): every family x weight kind for each routine, n up to 260"""
+    r = stress_rng(ctx)
+    fns = ['randmio_und_connected', 'latmio_und_connected', 'randmio_dir_connected', 'latmio_dir_connected']
+    if not ctx.thorough:
+        for fn in fns:
+            fams = STRESS_FAMILIES_UND if fn in UND else STRESS_FAMILIES_DIR
+            # a ring / chain with heavy weights (searches of 50+ rounds through weights ~1e5), and one more from the whole family
+            stress_case(ctx, r, fn, int(r.randint(160, 201)), str(fams[int(r.randint(3))]), 'heavy')
+            stress_case(ctx, r, fn, int(r.randint(160, 231)), str(fams[int(r.randint(len(fams)))]), str(STRESS_WEIGHTS[int(r.randint(len(STRESS_WEIGHTS)))]))
+        return
+    for fn in fns:
+        fams = STRESS_FAMILIES_UND if fn in UND else STRESS_FAMILIES_DIR
+        for i, fam in enumerate(fams):
+            for wk in ('heavy', 'mixed', 'tiny' if i % 2 else 'bin'):
+                stress_case(ctx, r, fn, int(r.randint(160, 261)), fam, wk)
+
+
+def stress_only(ctx, bct):
+    """development aid: the stress families alone"""
+    stress_families(ctx)
+
+
 def run(ctx):
     lines, pend = [], []
+    # stress families (oracle only): FIRST in the escalated pass of a changed tree (its time cap must not cut them off), LAST otherwise
+    if ctx.escalated:
+        stress_families(ctx)
     corpus = os.path.join(VERIF, 'corpus', 'C11.json')
     if os.path.exists(corpus):
         for c in json.load(open(corpus)):
@@ -194,6 +281,8 @@ def run(ctx):
     for fn in ['randmio_und_connected', 'latmio_und_connected']:
         for _ in range(per // 3):
             reject_case(ctx, fn, lines, pend)
+    if not ctx.escalated:
+        stress_families(ctx)
     res = run_model(ID, lines)
     ctx.model_cases = len(lines)
     for (fn, case, r), m in zip(pend, res):
